@@ -360,42 +360,71 @@ func validPrecTree(n *pnode) bool {
 	return true
 }
 
+// precFailure evaluates the oracle on one tree and returns (clause, detail) of the first failure.
+func precFailure(t *pnode, full bool) (clause, text, detail string) {
+	e := EntryByName("ParseExpr")
+	text = printPrec(t, full)
+	res := e.Call(text)
+	want := expectShape(t, full)
+	if res.Panic != nil {
+		return "", text, ""
+	}
+	if res.Err != nil {
+		return "rejected", text, fmt.Sprintf("expression printed by the documented table is rejected: %v (expected grouping %s)", res.Err, want)
+	}
+	got := astShape(res.Roots[0])
+	if got != want {
+		return "grouping", text, fmt.Sprintf("parsed as %s, the GoogleSQL table gives %s", got, want)
+	}
+	sql, ok := safeSQL(res.Roots[0])
+	if !ok {
+		return "", text, ""
+	}
+	a, ok1 := sigTokensImpl(text)
+	b, ok2 := sigTokensImpl(sql)
+	if !ok1 || !ok2 || a != b {
+		return "unparse-parens", text, fmt.Sprintf("SQL() = %q does not have the source's tokens (adds or drops a parenthesis)", sql)
+	}
+	return "", text, ""
+}
+
+// subtreeFails: does some proper subtree, taken as an expression of its own, already fail?
+func subtreeFails(t *pnode, full bool) bool {
+	for _, k := range t.kids {
+		if k.op == nil {
+			continue
+		}
+		if cl, _, _ := precFailure(k, full); cl != "" {
+			return true
+		}
+		if subtreeFails(k, full) {
+			return true
+		}
+	}
+	return false
+}
+
 func checkPrecTree(c *explore.Ctx, t *pnode) {
 	if !validPrecTree(t) {
 		return
 	}
-	e := EntryByName("ParseExpr")
 	for _, full := range []bool{false, true} {
-		text := printPrec(t, full)
 		mode := "min"
 		if full {
 			mode = "full"
 		}
+		clause, text, detail := precFailure(t, full)
 		c.Input(text)
-		res := e.Call(text)
-		want := expectShape(t, full)
-		if res.Panic != nil {
-			continue
-		}
-		if res.Err != nil {
-			c.Violation("C07/"+mode+"/rejected/"+pairClasses(t), text, fmt.Sprintf("expression printed by the documented table is rejected: %v (expected grouping %s)", res.Err, want))
-			continue
-		}
-		got := astShape(res.Roots[0])
-		if got != want {
-			c.Violation("C07/"+mode+"/grouping/"+pairClasses(t), text, fmt.Sprintf("parsed as %s, the GoogleSQL table gives %s", got, want))
-			continue
-		}
-		sql, ok := safeSQL(res.Roots[0])
-		if !ok {
-			continue
-		}
-		a, ok1 := sigTokensImpl(text)
-		b, ok2 := sigTokensImpl(sql)
-		if !ok1 || !ok2 || a != b {
-			c.Violation("C07/"+mode+"/unparse-parens/"+pairClasses(t), text, fmt.Sprintf("SQL() = %q does not have the source's tokens (adds or drops a parenthesis)", sql))
-		}
 		c.Count("expressions", 1)
+		if clause == "" {
+			continue
+		}
+		// attribute the failure to the smallest failing tree: larger trees that merely contain it are not reported again
+		if subtreeFails(t, full) {
+			c.Count("failures_inherited_from_subtree", 1)
+			continue
+		}
+		c.Violation("C07/"+mode+"/"+clause+"/"+pairClasses(t), text, detail)
 	}
 	c.OutcomeStr(expectShape(t, false))
 	c.Nontrivial(explore.Hash(printPrec(t, false)))
